@@ -21,7 +21,8 @@ EXPLANATION = (
     "(polynomial normal-form comparison; witness: a single-edge graph has optimum 1 = |E|); (R3) every candidate that "
     "can become the lower bound is a tabled provider combined by max, width queries ignore the synthetic source/sink "
     "edges together with the user's ignore set, provider functions return len() of a *solved* sub-model's solution; "
-    "(R4) no process exit is reachable.  NOT decided: minimality, completeness, validity of each provider as a bound."
+    "(R4) no process exit is reachable; (R6) the caller's options dict - from which the `lowerbound_k` option is read - and the other "
+    "input objects are never written (sub-searches work on copies), so a bound computed for one graph cannot leak into the search on another.  NOT decided: minimality, completeness, validity of each provider as a bound."
 )
 DECIDED = ["search protocol of MinFlowDecomp.solve on every path", "range reaches the largest attainable optimum",
            "lower-bound candidates come from tabled providers, composed by max, with the width-call convention",
@@ -88,6 +89,9 @@ def run(prog: Program, rep, pid: str, cls: str, sol_key: str, allow_log2: bool, 
     lowerbound_rule(prog, rep, f"{pid}.R3", cls, allow_log2=allow_log2)
     rep.rule(f"{pid}.R4", "no process exit in library code", floor=1)
     no_process_exit(prog, rep, f"{pid}.R4")
+    rep.rule(f"{pid}.R6", "the options dict that provides `lowerbound_k` and the other inputs are never written by the class", floor=3)
+    from rules.c18 import class_inputs_not_mutated
+    class_inputs_not_mutated(prog, rep, f"{pid}.R6", [cls])
 
 
 def check(prog: Program, rep):
